@@ -31,7 +31,7 @@ __all__ = ["OFXTree", "TreeBuilder", "ParseError"]
 # stdlib imports
 import re
 import xml.etree.ElementTree as ET
-from typing import Tuple, Optional
+from typing import Tuple, Optional, List
 import logging
 
 
@@ -149,6 +149,43 @@ class TreeBuilder(ET.TreeBuilder):
         """,
         re.VERBOSE,
     )
+
+    def __init__(self, *args, **kwargs):
+        super().__init__(*args, **kwargs)
+        # ``ET.TreeBuilder`` checks neither that an end tag matches the element
+        # being closed nor that every element has been closed by the time of
+        # ``close()``, so we keep our own stack of open tags.
+        self._open_tags: List[str] = []
+        self._seen_root = False
+
+    def start(self, tag, attrs):
+        """Push tag onto the stack of open tags; allow only a single root."""
+        if not self._open_tags:
+            if self._seen_root:
+                raise ParseError(f"Multiple root elements; extra <{tag}>")
+            self._seen_root = True
+        self._open_tags.append(tag)
+        return super().start(tag, attrs)
+
+    def end(self, tag):
+        """Pop tag off the stack of open tags, verifying proper nesting."""
+        if not self._open_tags:
+            raise ParseError(f"End tag </{tag}> has no matching start tag")
+        if self._open_tags[-1] != tag:
+            raise ParseError(
+                f"End tag </{tag}> doesn't match open tag <{self._open_tags[-1]}>"
+            )
+        self._open_tags.pop()
+        return super().end(tag)
+
+    def close(self):
+        """Return the root element, verifying that all tags have been closed."""
+        if self._open_tags:
+            raise ParseError(f"Missing end tag(s) for {self._open_tags}")
+        root = super().close()
+        if root is None:
+            raise ParseError("No OFX markup found")
+        return root
 
     def feed(self, data: str) -> None:
         """
